@@ -103,7 +103,7 @@ func (v *Vue) interpolateToWriter(ctx VueContext, w io.Writer, input string) err
 		if val != nil {
 			// The value is written as-is: text nodes and attribute values are escaped once,
 			// when the evaluated DOM is serialised (script/style bodies are never escaped).
-			if _, err := io.WriteString(w, fmt.Sprint(val)); err != nil {
+			if _, err := io.WriteString(w, helpers.Sprint(val)); err != nil {
 				return err
 			}
 		}
